@@ -2,6 +2,8 @@ import FrappyModel.Node.Dispatch
 import FrappyModel.Datatypes.Import
 import FrappyModel.Node.AccessLock
 import FrappyModel.Node.ChangeSection
+import FrappyModel.Node.CheckChain
+import FrappyModel.Spec.C18
 /-
 C04 — No invalid, forbidden or out-of-limit request ever reaches the driver.
 
@@ -290,6 +292,62 @@ def callMergesCurrentB (dt : DType F) (j : JVal F) (cur v : PVal F) : Bool :=
   | none => false
 
 end c01merge
+
+/-! ## the class layout: which checks a parameter is subject to
+
+"satisfies the module's current dynamic limits and check hooks", said over the classes of the module class as the
+programmer wrote them (`ls`: one `Layer` per class in MRO order, most derived first — the class layout of C18), not over
+a chain of check functions found on the finished class.  Which hooks exist and whether the limits are enforced is a
+matter of the layout alone; the rule for the limits is C18's `AutoApplies` (frappy's documented rule: the class where one
+of `<p>_min/_max/_limits` is defined first carries the limit check unless the programmer gave that very class a
+`check_<p>` of his own; a hook the class merely INHERITS never switches the limits off). -/
+
+section layout
+open Frappy.ExtParams (Layer)
+open Frappy.Spec.C18 (AutoApplies)
+
+/-- the class at MRO position `i` defines a `check_<p>` of its own -/
+def ownAt (ls : List Layer) (i : Nat) : Bool := (ls.getD i default).ownCheck
+
+/-- `stop` = position (in `ls`) of the programmer's hook that takes the decision over (returns a true value), `none`
+when none does; `k` = MRO position of the first class of `ls` (hooks are identified by their MRO position).
+ * `stops`: the hook named by `stop` exists and does take over;
+ * `hooks`: every programmer's hook of a class before it in MRO order (every hook, when `stop = none`) passes;
+ * `limits`: the current dynamic limits hold whenever the automatic limit check applies. -/
+structure LayoutOK (env : Env V) (mod : Module J V) (attr : String) (v : V) (k : Nat) (ls : List Layer)
+    (stop : Option Nat) : Prop where
+  stops : ∀ j, stop = some j → j < ls.length ∧ ownAt ls j = true ∧ env.chk mod.name attr (k + j) v = .stop
+  hooks : ∀ i, i < ls.length → (∀ j, stop = some j → i < j) → ownAt ls i = true →
+    env.chk mod.name attr (k + i) v = .pass
+  limits : AutoApplies ls stop → LimitsOK env mod attr v
+
+/-- the clause of `Accepted` for a parameter of a module class with layout `ls` -/
+def LayoutChecksOK (env : Env V) (mod : Module J V) (attr : String) (v : V) (ls : List Layer) : Prop :=
+  ∃ stop, LayoutOK env mod attr v 0 ls stop
+
+end layout
+
+/-! ## well-formedness, decided
+
+The theorems are about nodes satisfying `Node.WF` (what class creation and configuration guarantee).  `wfB` decides it, so
+that the driver can say of every node the harness builds whether the theorems speak about it
+(`Props.C04.wf_of_wfB`). -/
+
+def accKindOKB (pre : Predef) (a : Acc J V) : Bool :=
+  match predefKind pre a.attr with
+  | some k => decide (k = a.kind)
+  | none => true
+
+def accConstROB : Acc J V → Bool
+  | .param p => !p.constant.isSome || p.readonly
+  | .command _ => true
+
+def moduleWfB (pre : Predef) (m : Module J V) : Bool :=
+  decide ((m.accs.map Acc.attr).Nodup) && decide ((m.accs.filterMap (wireName pre m)).Nodup) &&
+  m.accs.all (accKindOKB pre) && m.accs.all accConstROB
+
+def wfB (pre : Predef) (n : Node J V) : Bool :=
+  decide ((n.map (·.name)).Nodup) && n.all (moduleWfB pre)
 
 /-! ## histories -/
 
